@@ -8,6 +8,7 @@ package c01
 
 import (
 	"encoding/json"
+	"time"
 	"fmt"
 	"os"
 	"path/filepath"
@@ -21,9 +22,9 @@ func init() {
 	core.Register(&core.Spec{
 		ID:    "C01",
 		Level: "fault_enumeration",
-		Rule: "W1: every attribute path derived from the tested tree's schema/compose-spec.json (every property, oneOf arm and array level of service/network/volume/secret/config/include) and every node of loader/full-example.yml, the node replaced by each of 18 YAML node kinds, loaded alone / as override / as base / extended in the same file / extended from another file / included, under the default options, every single Skip*/Resolve option (thorough: all pairs and a sample of all 512 combinations); W2: seeded byte/token mutations of a corpus; W3: alias, merge-key, extends, include and depends_on cycles (every digraph with a cycle on <=4 services) which must be errors; W4: generated multi-file projects with every subset of their referenced files removed, each single file replaced by a directory / dangling symlink (thorough: made unreadable with strace fault injection): must fail naming a missing file unless only optional env files are missing; W5: deep nesting, long extends chains, many services, huge scalars. Every load runs in a worker process watched for death, CPU budget (20/60 CPU-s per case) and resident memory. Non-trivial = the mutated/faulted input differs from its valid carrier; distinct = distinct (files, options).",
+		Rule: "W1: every attribute path derived from the tested tree's schema/compose-spec.json (every property, oneOf arm and array level of service/network/volume/secret/config/include) and every node of loader/full-example.yml, the node replaced by each of 18 YAML node kinds, loaded alone / as override / as base / extended in the same file / extended from another file / included, under the default options, every single Skip*/Resolve option (thorough: all pairs and a sample of all 512 combinations); W2: seeded byte/token mutations of a corpus; W3: alias, merge-key, extends, include and depends_on cycles (every digraph with a cycle on <=4 services) which must be errors; W4: generated multi-file projects with every subset of their referenced files removed, each single file replaced by a directory / dangling symlink (thorough: made unreadable with strace fault injection): must fail naming a missing file unless only optional env files are missing; W5: deep nesting, long extends chains, many services, huge scalars. Every load runs in a worker process watched for death, CPU budget (30/60 CPU-s per case) and resident memory. Non-trivial = the mutated/faulted input differs from its valid carrier; distinct = distinct (files, options).",
 		Assumptions: []string{
-			"'never loops forever' is restated as a CPU-time budget per load (quick 20 s, thorough 60 s; the slowest legitimate load on this tree is about 30 ms)",
+			"'never loops forever' is restated as a CPU-time budget per load (quick 30 s, thorough 60 s; an ordinary load takes about 10 ms and the slowest stress case of W5 about 3 CPU-s on this tree)",
 			"crash sites are identified by the first compose-go frame of the panic stack and the panic class, without line numbers",
 			"which error is reported is not asserted, except that a planted missing file must be named and planted cycles must be rejected",
 		},
@@ -31,7 +32,7 @@ func init() {
 			if tier == "thorough" {
 				return 60
 			}
-			return 20
+			return 30
 		},
 		Run:     run,
 		Replay:  replay,
@@ -108,7 +109,12 @@ func judge(s *core.Shard, dir string, c *ld.Case, ex expect, sink func(map[strin
 	if sink == nil {
 		sink = s.Violation
 	}
+	t0 := time.Now()
 	r := ld.Load(dir, c)
+	if el := time.Since(t0); el > 2*time.Second {
+		// visibility of loads that come anywhere near the CPU budget (wall time >= CPU time here: one goroutine)
+		s.Cover("load-slower-than-2s", ex.Workload+"/"+ex.Generic)
+	}
 	s.Eval(1)
 	files := map[string]any{"case.json": replayCase{Case: c, Expect: ex}}
 	validation := "on"
